@@ -32,22 +32,6 @@ Definition model_obs (F : forest) (c : call) : obs := obs_of (run F c).
 Definition model_obs_r (F : forest) (ck : option ckpt) (c : call) : obs :=
   obs_of (would_resume F c ck).
 
-Fixpoint list_eqb {A} (eqb : A -> A -> bool) (x y : list A) : bool :=
-  match x, y with
-  | [], [] => true
-  | a :: x', b :: y' => eqb a b && list_eqb eqb x' y'
-  | _, _ => false
-  end.
-Definition pl_eqb (a b : path * list N) : bool :=
-  list_eqb N.eqb (fst a) (fst b) && list_eqb N.eqb (snd a) (snd b).
-
-Definition obs_eqb (a b : obs) : bool :=
-  match a, b with
-  | OErr, OErr => true
-  | OOk d f, OOk d' f' => list_eqb pl_eqb d d' && list_eqb pl_eqb f f'
-  | _, _ => false
-  end.
-
 (* pointwise: every node the implementation showed to execute (its entry in deliv / fired) has
    exactly one entry in the model's answer for all nodes, with the same values
    (Proofs/OptionsAll.v: within_deliveries_sound / _complete, within_firings_sound) *)
@@ -58,9 +42,22 @@ Definition obs_within (model o : obs) : bool :=
   | _, _ => false
   end.
 
+(* the same, and every node the model reports was observed (at least once: a node of a looping
+   graph, a ToolsNode with several tool calls has one observed entry per execution, and every
+   one of them must be the model's entry for the node) *)
+Definition covers (model observed : list (path * list N)) : bool :=
+  forallb (fun e => existsb (fun e' => path_eqb (fst e') (fst e)) observed) model.
+Definition obs_same (model o : obs) : bool :=
+  match model, o with
+  | OErr, OErr => true
+  | OOk d f, OOk d' f' => within d d' && within f f' && covers d d' && covers f f'
+  | _, _ => false
+  end.
+
 (* Case: one forest, the calls run concurrently / one after the other, each from START; the
          forest's n_runs are the decisions of the branches (inputs of the case), and the
-         implementation must report exactly the nodes the model reports.
+         implementation must report exactly the nodes the model reports, every execution of a
+         node with the model's values (obs_same).
    CaseR: a session on one checkpoint id — call 0 starts the run, every later call resumes it
           where the previous one was interrupted; each call comes with the checkpoint it was
           entered with, as far as the public InterruptInfo of the interrupted call shows it
@@ -74,7 +71,7 @@ Inductive ccase : Type :=
 
 Definition bad (c : ccase) : bool :=
   match c with
-  | Case F calls => negb (forallb (fun co => obs_eqb (model_obs F (fst co)) (snd co)) calls)
+  | Case F calls => negb (forallb (fun co => obs_same (model_obs F (fst co)) (snd co)) calls)
   | CaseR F steps =>
       negb (forallb (fun s => match s with
                               | (ck, c, o) => obs_within (model_obs_r F ck c) o
